@@ -26,8 +26,9 @@ def build(tier):
 
 def gen_cases(tier, seed):
     rng = random.Random(seed)
-    n = {"quick": 60, "search": 200, "thorough": 500}[tier]
-    cases = [{"bseed": 18, "kind": "corpus_u16_cleared", "arena": 1 << 16}]
+    n = {"quick": 48, "search": 160, "thorough": 300}[tier]
+    cases = [{"bseed": 18, "kind": "corpus_u16_cleared", "arena": 1 << 16, "model": False},
+             {"bseed": 18, "kind": "corpus_u16_cleared", "arena": 1 << 16}]
     for i in range(n):
         fam = "f" if i % 3 < 2 else "h"
         big = i % 7 == 0
@@ -35,6 +36,10 @@ def gen_cases(tier, seed):
                       "p": {"nops": rng.choice([14, 25, 40]) if not big else 14, "pbig": 0.3 if big else 0.04, "pmid": 0.3 if big else 0.25,
                             "arena_in": 500000 if big else 300000},
                       "arena": (500000 if big else 300000) + 3 * sl.K64 + 8192, "mirror": False, "ring": i % 2 == 0})
+    if tier == "search":
+        # failing-input search: the real code alone, judged by the property oracles (a model mismatch would stop a script early)
+        for c in cases:
+            c["model"] = False
     return cases
 
 worker_init = sl.worker_init
